@@ -113,9 +113,10 @@ Qed.
 
 Lemma trace_do_act now s a : trace (do_act now s a) = trace s.
 Proof.
-  destruct a as [t|t]; cbn [do_act].
+  destruct a as [t|t|r]; cbn [do_act].
   - destruct (get t s) as [tq|]; [|reflexivity]. destruct (stat tq); try reflexivity. rewrite trace_wake. reflexivity.
   - apply trace_send.
+  - reflexivity.
 Qed.
 
 Lemma trace_handler now acts : forall s, trace (handler now acts s) = trace s.
@@ -152,7 +153,7 @@ Qed.
 Lemma trace_pre_hooks now pre : forall s, trace (pre_hooks now pre s) = trace s.
 Proof.
   unfold pre_hooks. induction pre as [|a pre IH]; intros s; cbn [fold_left]; [reflexivity|].
-  rewrite IH. destruct a; cbn [do_pre]; [reflexivity|apply trace_send_outside].
+  rewrite IH. destruct a; cbn [do_pre]; [reflexivity|apply trace_send_outside|reflexivity].
 Qed.
 
 Lemma ops_ok_run_exec b tag now acts s : ops_ok (trace s) -> ops_ok (trace (run_exec b tag now acts s)).
@@ -168,10 +169,40 @@ Proof.
   intros H. unfold run_event. apply ops_ok_run_exec. rewrite trace_pre_hooks. exact H.
 Qed.
 
-Lemma ops_ok_run_events b : forall evs s e now, ops_ok (trace s) -> ops_ok (trace (fst (run_events b s e now evs))).
+Lemma ops_ok_run_start b s now acts : ops_ok (trace s) -> ops_ok (trace (run_start b s now acts)).
+Proof. intros H. unfold run_start. apply ops_ok_run_exec. exact H. Qed.
+
+Lemma ops_ok_do_shutdown b g ts now s : ops_ok (trace s) -> ops_ok (trace (do_shutdown b g ts now s)).
 Proof.
-  induction evs as [|[[[d k] pre] acts] evs IH]; intros s e now H; cbn [run_events fst]; [exact H|].
-  apply IH. apply ops_ok_run_event. exact H.
+  intros H. unfold do_shutdown.
+  set (s0 := {| tasks := tasks (init g ts); lq := []; cq := []; inj := []; stick := 0; gqi := g; trace := RReset now :: trace s |}).
+  pose proof (ops_ok_exec_event (b_local b) (b_rt b) (b_coop b) now [] s0 H) as H1.
+  destruct (exec_event _ _ _ _ _ _) as [[s1 p2] p3]; cbn [fst] in H1. rewrite trace_end_turn. exact H1.
+Qed.
+
+Lemma ops_ok_after_exec b g ts now acts s : ops_ok (trace s) -> ops_ok (trace (fst (after_exec b g ts now acts s))).
+Proof.
+  intros H. unfold after_exec. destruct (shutdown_req now acts); cbn [fst]; [apply ops_ok_do_shutdown|]; exact H.
+Qed.
+
+Lemma ops_ok_catch_up b start sm t : ops_ok (trace (fst sm)) -> ops_ok (trace (fst (catch_up b start sm t))).
+Proof.
+  intros H. unfold catch_up. destruct (restart_due (snd sm) t); cbn [fst]; [apply ops_ok_run_start|]; exact H.
+Qed.
+
+Lemma ops_ok_step_event b g ts start sm e t k pre acts :
+  ops_ok (trace (fst sm)) -> ops_ok (trace (fst (step_event b g ts start sm e t k pre acts))).
+Proof.
+  intros H. unfold step_event. pose proof (ops_ok_catch_up b start sm t H) as H1.
+  destruct (snd (catch_up b start sm t)); [|exact H1].
+  apply ops_ok_after_exec. apply ops_ok_run_event. exact H1.
+Qed.
+
+Lemma ops_ok_run_events b g ts start : forall evs sm e now,
+  ops_ok (trace (fst sm)) -> ops_ok (trace (fst (fst (run_events b g ts start sm e now evs)))).
+Proof.
+  induction evs as [|[[[d k] pre] acts] evs IH]; intros sm e now H; cbn [run_events fst]; [exact H|].
+  apply IH. apply ops_ok_step_event. exact H.
 Qed.
 
 Lemma ops_ok_run_end b s now : ops_ok (trace s) -> ops_ok (trace (run_end b s now)).
@@ -189,8 +220,12 @@ Qed.
 Theorem ops_within_their_poll b g ts start evs : ops_ok (rev (run_model b g ts start evs)).
 Proof.
   unfold run_model.
-  pose proof (ops_ok_run_events b evs (run_start b (init g ts) start) O 0
-                (ops_ok_run_exec b 4 0 start (add_trace (RStart 0) (init g ts)) I)) as H.
-  destruct (run_events b (run_start b (init g ts) start) 0 0 evs) as [s now]; cbn [fst] in H.
-  rewrite rev_involutive. apply ops_ok_run_end. exact H.
+  assert (Hb : ops_ok (trace (fst (boot b g ts start)))).
+  { unfold boot. apply ops_ok_after_exec. apply ops_ok_run_start. exact I. }
+  pose proof (ops_ok_run_events b g ts start evs _ O 0 Hb) as H.
+  destruct (run_events b g ts start (boot b g ts start) 0 0 evs) as [sm now]; cbn [fst] in H.
+  assert (H2 : ops_ok (trace (fst (last_restart b start sm now)))).
+  { unfold last_restart. destruct (snd sm) as [|[r|]]; cbn [fst]; try exact H. apply ops_ok_run_start. exact H. }
+  destruct (last_restart b start sm now) as [s now']; cbn [fst] in H2.
+  rewrite rev_involutive. apply ops_ok_run_end. exact H2.
 Qed.
